@@ -103,7 +103,9 @@ PROP = {
             "cqrs/reply/unreply: JSON, Protobuf and gogo-Protobuf marshalers in 4-8 configurations on a family of 11 JSON types, 12 + 11 "
             "well-known protobuf types - every third protobuf value carries UNKNOWN FIELDS (1-4 well-formed varint/bytes/fixed fields with numbers >= 1000, "
             "set through protoreflect SetUnknown / XXX_unrecognized), and the value is compared by its exported fields, its unknown bytes and its "
-            "deterministic re-marshalling - non-serialisable values; replies over 11 result types x {no error, empty text, any text}; 33 hand-made replies. "
+            "deterministic re-marshalling - 300 protobuf values per quick run whose Go OBJECT HAS A PAST (proto.Size / a first Marshal through the same marshaler / proto.Marshal was "
+            "called on it, then 1-3 nested messages were edited in place so that their encoded length grows or shrinks) - the edited value is a value "
+            "like any other and must marshal and round-trip - non-serialisable values; replies over 11 result types x {no error, empty text, any text}; 33 hand-made replies. "
             "Non-trivial = metadata present (pair) / a copy followed by a write or an Equals (heap) / non-empty destination (env) / serialisable value "
             "(cqrs, reply). Thorough = 12x the random volume.",
     "trusted_base": [
